@@ -214,3 +214,20 @@ Example C17_end_to_end_in_scope_hyps :
   /\ compliant Baseline newest_published example_pod = false.
 Proof. exact DeployFacts.C17_end_to_end_in_scope_hyps. Qed.
 Print Assumptions C17_end_to_end_in_scope_hyps.
+
+(** ---- the whole stack, from the document and the AdmissionRequest as sent (Model/Wire.v) ---- *)
+From PSA Require Import Model.Wire.
+(** configuration document in, AdmissionRequest in, cluster state in; HTTP answer out: 200, the review's own
+    uid, and "allowed" exactly when the pod complies with the Pod Security Standards at the enforce level and
+    version that the document's defaults and the namespace's labels resolve to *)
+Theorem C17_end_to_end_wire : forall i relax cl f now q a w0 c ls p m,
+  deploy i = Some c ->
+  hq_has_body q = true -> N.ltb (hq_size q) max_request_size = true ->
+  hq_ctype q = "application/json"%string -> hq_payload q = Review (ar_uid a) (attributes_of a None) w0 ->
+  evaluated_pod c (attributes_of a None) (world_of production_wiring cl f (ar_namespace a) None now) = Some (ls, p) ->
+  api_valid p = true -> relaxed_for relax p = false ->
+  effective_minor (lv_version (enforce (spec_policy ls (cf_defaults c)))) = Some m ->
+  exists resp, full_stack i (shipped_evaluator relax) cl f now q = Some (HttpResponse 200 (Some (ar_uid a, resp)))
+               /\ rs_allowed resp = compliant (lv_level (enforce (spec_policy ls (cf_defaults c)))) m p.
+Proof. intros i relax cl f now q a w0 c ls p m. exact (C17_end_to_end i relax cl f now q (ar_uid a) (attributes_of a None) w0 c ls p m). Qed.
+Print Assumptions C17_end_to_end_wire.
